@@ -824,6 +824,34 @@ func checkCloseErr(r *Run, rc *RuleCtx, m *clientModel) {
 		if v == r {
 			return true
 		}
+		// a field of a local struct (the CloseErr under construction) read back: the value stored there
+		if ld, ok := v.(*ssa.UnOp); ok && ld.Op == token.MUL {
+			if fa, isFA := ld.X.(*ssa.FieldAddr); isFA {
+				if al, isAl := fa.X.(*ssa.Alloc); isAl {
+					if fv, _ := localFieldValue(al, fa.Field, ld, 0); fv != nil && fv != v {
+						return isResult(fv, r, depth+1)
+					}
+					// stored on some paths only (the conditional connection close): the field is the zero value or
+					// one of the stored values - every one of which must be the result
+					n := 0
+					for _, ref := range *al.Referrers() {
+						fa2, isFA2 := ref.(*ssa.FieldAddr)
+						if !isFA2 || fa2.Field != fa.Field {
+							continue
+						}
+						for _, u := range *fa2.Referrers() {
+							if st, isSt := u.(*ssa.Store); isSt && st.Addr == ssa.Value(fa2) {
+								if !isResult(st.Val, r, depth+1) {
+									return false
+								}
+								n++
+							}
+						}
+					}
+					return n > 0
+				}
+			}
+		}
 		if ph, ok := v.(*ssa.Phi); ok {
 			found := false
 			for _, e := range ph.Edges {
